@@ -275,14 +275,19 @@ def rule_kwargs(nd, args, limit):
     """Keyword arguments the generated rule passes to its response constructor (pure function of the case)."""
     rs = nd["rspec"]
     kw = {"d": digest(args)[:8]}
+    xn = rs.get("xname") or "x"          # the name of the payload argument is the rule author's choice
     if rs.get("payload"):
-        kw["x"] = "p" * rs["payload"]
+        kw[xn] = "p" * rs["payload"]
     if rs["kind"] == "big":
         base = dict(kw)
-        base["x"] = ""
+        base[xn] = ""
         base["type"] = RESP_TYPE[rs["cls"]]
         base[KEY_NAME[rs["cls"]]] = rs["key"]
-        kw["x"] = "b" * max(0, limit + rs["delta"] - len(str(base)))
+        kw[xn] = "b" * max(0, limit + rs["delta"] - len(str(base)))
+        if rs.get("xname2"):
+            # a second, small argument (the length is measured over all of them)
+            kw[rs["xname2"]] = "s"
+            kw[xn] = kw[xn][:max(0, len(kw[xn]) - (len(str(dict(base, **{rs["xname2"]: "s"}))) - len(str(base))))]
     return kw
 
 
